@@ -10,7 +10,9 @@ Bad(v) ==
   ELSE IF DivDefined(v.a, v.b) # v.divdef THEN "divdef"
   ELSE IF v.divdef /\ SDiv(v.a, v.b) # v.div THEN "div" ELSE IF v.divdef /\ SRem(v.a, v.b) # v.rem THEN "rem"
   ELSE IF SLt(v.a, v.b) # v.lt THEN "lt" ELSE IF SLe(v.a, v.b) # v.le THEN "le"
-  ELSE IF ToDecimal(v.a) # v.dec THEN "dec" ELSE IF Low8(v.a) # v.low8 THEN "low8" ELSE ""
+  ELSE IF ToDecimal(v.a) # v.dec THEN "dec" ELSE IF Low8(v.a) # v.low8 THEN "low8"
+  ELSE IF BitAnd(v.a, v.b) # v.and THEN "and" ELSE IF BitOr(v.a, v.b) # v.or THEN "or" ELSE IF BitXor(v.a, v.b) # v.xor THEN "xor"
+  ELSE IF Shl(v.a, v.sh) # v.shl THEN "shl" ELSE IF Shr(v.a, v.sh) # v.shr THEN "shr" ELSE IF Sar(v.a, v.sh) # v.sar THEN "sar" ELSE ""
 Init == st \in {[i |-> i, status |-> "run"] : i \in 1..Len(Vec)}
 Next == /\ st.status = "run"
         /\ PrintT("RESULT " \o ToJson([case |-> ToString(st.i), status |-> IF Bad(Vec[st.i]) = "" THEN "ok" ELSE "fail", why |-> Bad(Vec[st.i])]))
